@@ -3,16 +3,16 @@ import BppModel.ObserverExt
 /-
 More of src/Bpp/Graph/AssociationTreeGraphImplObserver.h on the model of `BppModel/TreeObs.lean`:
 
-* the copy constructor (:54), `clone()` (:91) and `operator=` (:76): all three hand over to the base class
+* the copy constructor (:56), `clone()` (:93) and `operator=` (:75): all three hand over to the base class
   `AssociationGraphImplObserver` (C14: `World.copy`, `World.clone`, `World.assign`): the copy observes the
   **same** tree graph (the `shared_ptr` is copied, AssociationGraphImplObserver.h:205), holds fresh objects
   with the labels of the source, and is registered with the graph.  The tree graph — hence the cached
   validity flag — is not touched;
-* `removeSon(nodeObject, sonObject)` (:259), `removeSons(nodeObject)` (:250): the id-level calls of the tree
+* `removeSon(nodeObject, sonObject)` (:260), `removeSons(nodeObject)` (:252): the id-level calls of the tree
   container with the observers told;
-* the object-level queries that map ids back to objects: `hasFather` (:152), `getNumberOfSons` (:226),
-  `getLeavesUnderNode` (:238), `getSubtreeNodes` (:373), `getSubtreeEdges` (:378),
-  `getNodePathBetweenTwoNodes` (:352), `getEdgePathBetweenTwoNodes` (:357), `MRCA` (:398)
+* the object-level queries that map ids back to objects: `hasFather` (:151), `getNumberOfSons` (:227),
+  `getLeavesUnderNode` (:238), `getSubtreeNodes` (:372), `getSubtreeEdges` (:377),
+  `getNodePathBetweenTwoNodes` (:352), `getEdgePathBetweenTwoNodes` (:357), `MRCA` (:397)
   (`getNodesFromGraphid` / `getEdgesFromGraphid` skip the ids that carry no object).
 -/
 namespace Bpp.Graph
@@ -32,10 +32,10 @@ def cloneObs (tw : TW) (j k : Nat) : WRes × TW := tw.ofObsOnly (tw.w.clone j k)
 /-- `operator=` -/
 def assignObs (tw : TW) (j k : Nat) : WRes × TW := tw.ofObsOnly (tw.w.assign j k)
 
-/-- `TreeGraphImpl::removeSon(node, son)` (TreeGraphImpl.h:503) with the observers told -/
+/-- `TreeGraphImpl::removeSon(node, son)` (TreeGraphImpl.h:517) with the observers told -/
 def removeSonG (tw : TW) (n s : Nat) : GOut Unit × TW := touch (unit (tw.liftW (tw.w.g.unlink n s)))
 
-/-- `removeSon(nodeObject, sonObject)` (:259) -/
+/-- `removeSon(nodeObject, sonObject)` (:260) -/
 def removeSon (tw : TW) (k : Nat) (a s : Obj) : WRes × TW :=
   match tw.w.getObs k with
   | none => (.ub, tw)
@@ -44,7 +44,7 @@ def removeSon (tw : TW) (k : Nat) (a s : Obj) : WRes × TW :=
     | some ia, some is => ofG (tw.removeSonG ia is)
     | _, _ => (.exc .bpp, tw)
 
-/-- `removeSons(nodeObject)` (:250): the removed sons as objects — read from the maps as they are
+/-- `removeSons(nodeObject)` (:252): the removed sons as objects — read from the maps as they are
 *after* the removals (`getNodesFromGraphid` is applied to the returned ids) -/
 def removeSons (tw : TW) (k : Nat) (a : Obj) : Option (List Obj) × WRes × TW :=
   match tw.w.getObs k with
@@ -92,7 +92,7 @@ def edgePathObj (tw : TW) (o : Obs) (a b : Obj) : TRes (List Obj) :=
   | some ia, some ib => showIds o.edgesFromGids (T.edgePath tw.w.g ia ib)
   | _, _ => .exc
 
-/-- `MRCA(vector of node objects)` (:398): `some none` = the node has no object -/
+/-- `MRCA(vector of node objects)` (:397): `some none` = the node has no object -/
 def mrcaObj (tw : TW) (o : Obs) (l : List Obj) : TRes (Option Obj) :=
   match l.mapM (fun a => AL.find a o.Ng) with
   | none => .exc
